@@ -209,6 +209,17 @@ def validatorguard(repo, schema=None):
         if f.name.startswith("get_") and f.name.endswith("_attribute") and f.fq in seen:
             funcs.setdefault(f.fq, (f, "attribute reader reachable from a pass that runs before attribute value "
                                        "kinds are verified"))
+    # ... and functions of those early passes that read attribute lists themselves (`for a in <x>.attribute:`)
+    byfq = {f_.fq: f_ for m_ in repo.modules.values() for f_ in m_.funcs.values()}
+    for fq in sorted(seen):
+        f = byfq.get(fq)
+        if f is None or not f.file.startswith("compiler/front_end/"):
+            continue
+        # dedicated readers only: the body is (a docstring,) one loop over `<x>.attribute` and returns
+        body = [st for st in f.node.body if not (isinstance(st, ast.Expr) and isinstance(st.value, ast.Constant))]
+        if body and all(isinstance(st, (ast.For, ast.Return)) for st in body) \
+                and any(isinstance(st, ast.For) and ast.unparse(st.iter).endswith(".attribute") for st in body):
+            funcs.setdefault(f.fq, (f, "reads an attribute list in a pass that runs before attribute lists are verified"))
     for fq, (f, why) in sorted(funcs.items()):
         res.instances += 1
         res.analysed.append(f"{f.file}:{f.qualname}")
@@ -722,6 +733,7 @@ def first_contact_asserts(repo, schema=None):
         seen.add(k)
         work.extend(g.fq for g in refs.get(k, ()))
     iu = repo.mod("compiler/util/ir_util.py")
+    res.instances += len(early)          # the early passes whose call graph was searched
     for f in iu.top_funcs():
         if "attribute" in f.name and f.fq in seen:
             params = {a.arg for a in f.node.args.args}
